@@ -599,6 +599,7 @@ _OtherStrict = _namesake('Strict', v=2, __eq__=lambda a, b: False, __hash__=lamb
 _OtherCelsius = _namesake('Celsius', __float__=lambda a: 3.0)
 _OtherInt = _namesake('int', __int__=lambda a: 5, __index__=lambda a: 5)
 _OtherList = _namesake('list', tuple)
+VALUES.update({'-0.0': -0.0, '0.0': 0.0, '1.0': 1.0, '1': 1, 'False': False})
 VALUES.update({'other.Strict()': _OtherStrict(), 'other.Celsius()': _OtherCelsius(), 'other.int()': _OtherInt(), 'other.list((1,))': _OtherList((1,))})
 OUTSIDE = {'inf': float('inf')}       # int(inf) raises OverflowError: neither TypeError nor ValueError (outside the model)
 
@@ -775,6 +776,12 @@ def do_typed_seq(case, res: Result):
 
 def typed_seq_cases(rng, count):
     names = list(VALUES)
+    # values that compare equal (and hash alike) yet cast differently, one after the other: whatever is remembered by VALUE
+    # serves the second with the first one's conversion
+    for dn in DTYPES:
+        for seq in (['0.0', '-0.0'], ['-0.0', '0.0', '0'], ['True', '1.0', '1'], ['1.0', 'True'], ['1', '1.0', 'True'], ['0', 'False', '0.0']):
+            for kind in 'sca':
+                yield {'part': 'typed-seq', 'dtype': dn, 'values': seq, 'subtype': True, 'cast': True, 'kind': kind, 'ret': True}
     for dn in DTYPES:
         for _ in range(count):
             yield {'part': 'typed-seq', 'dtype': dn, 'values': [rng.choice(names) for _ in range(rng.randint(2, 4))],
